@@ -82,7 +82,11 @@ def run(rep, tier, seed, replay):
                     pivot = 0
             tag = None
             rooted = c.expr.startswith("/") or c.expr.startswith("@ROOT")
-            if hi is not None and hi < pivot:
+            import re as _re
+            dotted = c.mode == "g" and _re.search(r"(^|/)\.\.?(/|$)", c.expr.split("*")[0].split("{")[0].split("<")[0].split("[")[0].split("?")[0]) is not None
+            if dotted and not rooted:
+                tag = "K-WALK-DOT-PREFIX"
+            elif hi is not None and hi < pivot:
                 tag = "K-DEPTH-SATURATE"
             elif rooted:
                 tag = "K-ENTRY-ROOTED-DEPTH"
@@ -121,6 +125,12 @@ def run(rep, tier, seed, replay):
 
     def ask(wit):
         a = walklib.case_from(wit["walk"])
+        if wit.get("kind") == "dot-prefix":
+            b = a.clone(mn="-", mx="-")
+            walklib.run_cases([a, b], with_model=False)
+            ya = [x[0] for x in walklib.ok_items(a.f.get("items"))]
+            yb = [x[0] for x in walklib.ok_items(b.f.get("items"))]
+            return (wit["entry"] in ya and wit["entry"] not in yb), "glob %r with min depth %s yields %r, which the same walk without bounds does not yield" % (a.expr, a.mn, wit["entry"])
         walklib.run_cases([a], with_model=False)
         oks = walklib.ok_items(a.f.get("items"))
         hi = int(a.mx)
